@@ -90,8 +90,19 @@ fn function_level(seed: u64, n: u64) -> Acc {
     run_shards(16, seed, move |_sh, s| {
         let mut r = rnd::rng(s);
         let mut acc = Acc::default();
+        fee_slice(&mut r, n / 16, 24, &mut acc);
+        tlv_slice(&mut r, n / 160, &mut acc);
+        acc
+    })
+}
+
+/// Fee algebra slice (single-threaded; also run under Miri by the `c16` sanitizer lane): `n` amount cases,
+/// `per_mint` of them per generated mint.
+pub fn fee_slice(r0: &mut R, n: u64, per_mint: u32, acc: &mut Acc) {
+    let mut r = r0.clone();
+    {
         let mut k = 0;
-        while k < n / 16 {
+        while k < n {
             let bps = |r: &mut R| {
                 let any = r.gen_range(0..=10000u16);
                 *rnd::pick(r, &[0u16, 1, 2, 10, 100, 999, 5000, 9999, 10000, any])
@@ -128,7 +139,7 @@ fn function_level(seed: u64, n: u64) -> Acc {
             let (_, cnt, _) = unsafe { pinocchio::entrypoint::deserialize::<4>(store.as_mut_ptr() as *mut u8, &mut infos) };
             assert_eq!(cnt, 1);
             let pinfo = unsafe { infos[0].assume_init_ref() };
-            for _ in 0..24 {
+            for _ in 0..per_mint {
                 k += 1;
                 let x = rnd::hostile_u64(&mut r);
                 let case = json!({"older": older, "newer": newer, "epoch": epoch, "amount": x});
@@ -193,8 +204,167 @@ fn function_level(seed: u64, n: u64) -> Acc {
             }
             drop(store);
         }
-        acc
-    })
+    }
+    *r0 = r;
+}
+
+/// Hostile TLV slice: mint accounts whose extension area is corrupted (truncated, lengths and type numbers
+/// overwritten, garbage appended, account-type byte changed) are pushed through the Pinocchio mint loader and
+/// TLV parser. Whenever spl-token-2022's own reader accepts the whole TLV area, the Pinocchio path must select
+/// the same epoch fee (or none). On data the library rejects nothing is judged here - the point of those
+/// cases is that the raw-pointer casts in the parser are executed on them under the sanitizer lanes.
+pub fn tlv_slice(r: &mut R, n: u64, acc: &mut Acc) {
+    for k in 0..n {
+        let older = (r.gen_range(0..=10000u16), rnd::log_u64(r), 0u64);
+        let newer_epoch = r.gen_range(0..6u64);
+        let newer = (r.gen_range(0..=10000u16), rnd::log_u64(r), newer_epoch);
+        let epoch = r.gen_range(0..8u64);
+        let mut data = build_mint(r, older, newer);
+        let valid_len = data.len();
+        let kind = r.gen_range(0..8);
+        match kind {
+            0 => {}
+            1 => {
+                let cut = r.gen_range(0..data.len());
+                data.truncate(cut.max(83));
+            }
+            2 => {
+                // overwrite one TLV length field
+                let mut cur = 166usize;
+                let mut offs = vec![];
+                while cur + 4 <= data.len() {
+                    let ty = u16::from_le_bytes([data[cur], data[cur + 1]]);
+                    if ty == 0 {
+                        break;
+                    }
+                    offs.push(cur);
+                    cur += 4 + u16::from_le_bytes([data[cur + 2], data[cur + 3]]) as usize;
+                }
+                if let Some(o) = offs.get(r.gen_range(0..offs.len().max(1))) {
+                    let any: u16 = r.gen();
+                    let v: u16 = *rnd::pick(r, &[0u16, 1, 107, 108, 109, 64, 65, 0xffff, any]);
+                    data[o + 2..o + 4].copy_from_slice(&v.to_le_bytes());
+                }
+            }
+            3 => {
+                // overwrite one type number (unknown, account-side, duplicate fee config / hook / memo)
+                let o = 166;
+                if data.len() >= o + 2 {
+                    let any: u16 = r.gen();
+                    let v: u16 = *rnd::pick(r, &[1u16, 8, 14, 15, 27, 0x7fff, 0xffff, any]);
+                    data[o..o + 2].copy_from_slice(&v.to_le_bytes());
+                }
+            }
+            4 => {
+                let extra = r.gen_range(1..40);
+                for _ in 0..extra {
+                    data.push(r.gen());
+                }
+            }
+            5 => {
+                if data.len() > 165 {
+                    data[165] = r.gen_range(0..4);
+                }
+            }
+            6 => {
+                // a trailing header without room for its length / value
+                let t: u16 = *rnd::pick(r, &[1u16, 14, 8, 3]);
+                data.extend_from_slice(&t.to_le_bytes());
+                if r.gen() {
+                    data.push(108);
+                }
+            }
+            _ => {
+                let i = r.gen_range(82..data.len());
+                data[i] = r.gen();
+            }
+        }
+        acc.evaluations += 1;
+        acc.count(&format!("tlv_corruption_kind_{kind}"));
+        let key = Pubkey::new_from_array(r.gen());
+        svm::set_ambient_clock(Clock { epoch, unix_timestamp: 1_700_000_000, ..Default::default() });
+        let mut store = svm::loader_buffer(&[(key, Acct { lamports: 1_000_000, data: data.clone(), owner: TOKEN22, executable: false }, false, false)]);
+        const U: core::mem::MaybeUninit<pinocchio::account_info::AccountInfo> = core::mem::MaybeUninit::uninit();
+        let mut infos = [U; 4];
+        let (_, cnt, _) = unsafe { pinocchio::entrypoint::deserialize::<4>(store.as_mut_ptr() as *mut u8, &mut infos) };
+        assert_eq!(cnt, 1);
+        let pinfo = unsafe { infos[0].assume_init_ref() };
+        let x = rnd::hostile_u64(r);
+        // a corrupted fee config can carry more than 10000 bp, which the token program never stores: the program's
+        // `calculate_fee(..).unwrap()` then panics (on chain: a failed transaction); contained and counted
+        let ep = match svm::quiet_catch(|| pino_calculate_transfer_fee_excluded_amount(pinfo, x).map(|v| (v.amount, v.transfer_fee)).map_err(u64::from)) {
+            Ok(v) => v,
+            Err(_) => {
+                acc.count("tlv_program_panicked");
+                Err(u64::MAX)
+            }
+        };
+        if svm::quiet_catch(|| pino_calculate_transfer_fee_included_amount(pinfo, x).map(|v| (v.amount, v.transfer_fee)).map_err(u64::from)).is_err() {
+            acc.count("tlv_program_panicked");
+        }
+        // what the token program's own reader says about the same bytes
+        let lib = StateWithExtensions::<Mint>::unpack(&data).ok().and_then(|st| st.get_extension_types().ok().map(|tys| (tys.contains(&ExtensionType::TransferFeeConfig), st.get_extension::<TransferFeeConfig>().ok().map(|c| *c.get_epoch_fee(epoch)))));
+        // Token-2022 only ever writes the fixed-size extensions with their own length; a type number overwritten onto
+        // an entry of another size is not a mint the token program can produce, so it is executed but not judged
+        let producible = {
+            let mut cur = 166usize;
+            let mut ok = true;
+            while cur + 4 <= data.len() {
+                let ty = u16::from_le_bytes([data[cur], data[cur + 1]]);
+                if ty == 0 {
+                    break;
+                }
+                let len = u16::from_le_bytes([data[cur + 2], data[cur + 3]]) as usize;
+                if matches!((ty, len), (1, l) if l != 108) || matches!((ty, len), (14, l) if l != 64) || matches!((ty, len), (8, l) if l != 1) {
+                    ok = false;
+                }
+                // ... and never stores more than 10000 basis points (value layout: 2 keys, withheld, then epoch/max/bps twice)
+                if ty == 1 && len == 108 && cur + 4 + 108 <= data.len() {
+                    let v = &data[cur + 4..cur + 112];
+                    if u16::from_le_bytes([v[88], v[89]]) > 10000 || u16::from_le_bytes([v[106], v[107]]) > 10000 {
+                        ok = false;
+                    }
+                }
+                cur += 4 + len;
+            }
+            ok
+        };
+        let lib = if producible { lib } else { acc.count("tlv_not_producible_by_token_program"); None };
+        match lib {
+            Some((has, cfg)) => {
+                acc.count("tlv_library_accepts");
+                let want = match (has, cfg) {
+                    (true, Some(f)) => f.calculate_fee(x),
+                    (false, _) => Some(0),
+                    _ => None,
+                };
+                if let Some(want_fee) = want {
+                    match ep {
+                        Ok((amt, fee)) => {
+                            if fee != want_fee || amt.checked_add(fee) != Some(x) {
+                                acc.violation("fee:tlv:pinocchio_selects_other_fee", format!("corruption kind {kind}: Pinocchio excluded({x}) = (amount {amt}, fee {fee}), the token program's reader gives fee {want_fee} on the same mint bytes (len {} of {valid_len}, epoch {epoch})", data.len()), json!({"mint_hex": hex(&data), "epoch": epoch, "amount": x}));
+                            }
+                            if has {
+                                acc.count("tlv_judged_with_fee_config");
+                            }
+                        }
+                        Err(e) => {
+                            acc.violation("fee:tlv:pinocchio_rejects_well_formed_mint", format!("corruption kind {kind}: the token program's reader accepts the TLV area but the Pinocchio parser fails with {e}"), json!({"mint_hex": hex(&data), "epoch": epoch}));
+                        }
+                    }
+                }
+            }
+            None => acc.count("tlv_library_rejects"),
+        }
+        if k < 2 {
+            acc.sample(json!({"tlv_case": kind, "len": data.len(), "library_accepts": lib.is_some(), "pinocchio": format!("{:?}", ep)}));
+        }
+        drop(store);
+    }
+}
+
+fn hex(d: &[u8]) -> String {
+    d.iter().map(|b| format!("{b:02x}")).collect()
 }
 
 // ------------------------------------------------------------------ instruction level
